@@ -237,7 +237,19 @@ AddrExpect(l) == IF \E i \in 1..Len(l.comps) : ~Less(Horner(l.comps[i], 10), Hor
                  THEN "either" ELSE "accept"
 
 ---------------------------------------------------------------------------
-All == (IF "int" \in Kinds THEN {l \in IntLits : IntWellFormed(l)} ELSE {})
+(* B.1.2.1 Boolean literals:  ( [ 'BOOL#' ] ( '1' | '0' ) ) | 'TRUE' | 'FALSE'.  A bit other than 0 and 1 does not fit in
+   one bit: rejected, never "everything that is not 0 is TRUE".  (Unprefixed 0 / 1 are integer literals: not generated.) *)
+BoolLits == { [k |-> "bool", pfx |-> p, body |-> b] : p \in {"BOOL#", "bool#", "Bool#"},
+                b \in {"TRUE", "FALSE", "true", "False", "0", "1", "2", "10", "1_0", "01", "255", "-1", "+1", "16#1", "2#0"} }
+            \cup { [k |-> "bool", pfx |-> "", body |-> b] : b \in {"TRUE", "FALSE", "true", "False", "tRUE"} }
+BoolSpelling(l) == IF l.pfx = "" THEN <<l.body>> ELSE <<l.pfx, l.body>>
+BoolValue(l) == [v |-> l.body \in {"TRUE", "true", "tRUE", "1", "01", "+1", "16#1"}]
+BoolExpect(l) == IF l.body \in {"TRUE", "FALSE", "true", "False", "tRUE", "0", "1"} THEN "accept"
+                 ELSE IF l.body \in {"01", "+1", "16#1", "2#0"} THEN "either"      \* 0 or 1, but not spelled as the standard has it
+                 ELSE "reject"
+
+---------------------------------------------------------------------------
+All == (IF "bool" \in Kinds THEN BoolLits ELSE {}) \cup (IF "int" \in Kinds THEN {l \in IntLits : IntWellFormed(l)} ELSE {})
        \cup (IF "bits" \in Kinds THEN BitLits ELSE {}) \cup (IF "real" \in Kinds THEN RealLits ELSE {})
        \cup (IF "dur" \in Kinds THEN DurLits ELSE {}) \cup (IF "date" \in Kinds THEN DateLits ELSE {})
        \cup (IF "tod" \in Kinds THEN TodLits \cup TodLong ELSE {}) \cup (IF "dt" \in Kinds THEN DtLits ELSE {})
@@ -247,18 +259,19 @@ Init == lit \in All
 Next == UNCHANGED lit
 Spec == Init /\ [][Next]_vars
 
-Spelling(l) == CASE l.k = "int" -> IntSpelling(l) [] l.k = "bits" -> BitSpelling(l) [] l.k = "real" -> RealSpelling(l)
+Spelling(l) == CASE l.k = "bool" -> BoolSpelling(l) [] l.k = "int" -> IntSpelling(l) [] l.k = "bits" -> BitSpelling(l) [] l.k = "real" -> RealSpelling(l)
                  [] l.k = "dur" -> DurSpelling(l) [] l.k = "date" -> DateSpelling(l) [] l.k = "tod" -> TodSpelling(l)
                  [] l.k = "dt" -> DtSpelling(l) [] l.k = "str" -> StrSpelling(l) [] l.k = "addr" -> AddrSpelling(l)
-Value(l) == CASE l.k = "int" -> IntValue(l) [] l.k = "bits" -> BitValue(l) [] l.k = "real" -> RealValue(l)
+Value(l) == CASE l.k = "bool" -> BoolValue(l) [] l.k = "int" -> IntValue(l) [] l.k = "bits" -> BitValue(l) [] l.k = "real" -> RealValue(l)
               [] l.k = "dur" -> DurValue(l) [] l.k = "date" -> DateValue(l) [] l.k = "tod" -> TodValue(l)
               [] l.k = "dt" -> DtValue(l) [] l.k = "str" -> StrValue(l) [] l.k = "addr" -> AddrValue(l)
-Expect(l) == CASE l.k = "int" -> IntExpect(l) [] l.k = "bits" -> BitExpect(l) [] l.k = "real" -> "accept"
+Expect(l) == CASE l.k = "bool" -> BoolExpect(l) [] l.k = "int" -> IntExpect(l) [] l.k = "bits" -> BitExpect(l) [] l.k = "real" -> "accept"
                [] l.k = "dur" -> DurExpect(l) [] l.k = "date" -> DateExpect(l) [] l.k = "tod" -> TodExpect(l)
                [] l.k = "dt" -> DtExpect(l) [] l.k = "str" -> "accept" [] l.k = "addr" -> AddrExpect(l)
 
 (* construct labels for findings *)
 Labels(l) == {"lit:" \o l.k}
+             \cup (IF l.k = "bool" /\ l.body \in {"0", "1"} /\ l.pfx # "" THEN {"bool:bit"} ELSE {})
              \cup (IF l.k = "dur" /\ Len(l.parts) > 1 THEN {"dur:compound"} ELSE {})
              \cup (IF l.k = "dur" /\ Len(l.parts) = 1 THEN {"dur:unit:" \o l.parts[1][3]} ELSE {})
              \cup (IF l.k = "dur" /\ Len(l.parts) = 1 /\ l.parts[1][2] # <<>> THEN {"dur:fraction"} ELSE {})
